@@ -24,12 +24,14 @@ import (
 )
 
 // ---- a sender that never finds a block ----
-type c02NullSender struct{ fetchable map[hotstuff.Hash]*hotstuff.Block }
+type c02NullSender struct {
+	fetchable map[hotstuff.Hash]*hotstuff.Block
+}
 
 func (c02NullSender) NewView(hotstuff.ID, hotstuff.SyncInfo) error { return nil }
-func (c02NullSender) Vote(hotstuff.ID, hotstuff.PartialCert) error  { return nil }
-func (c02NullSender) Timeout(hotstuff.TimeoutMsg)                   {}
-func (c02NullSender) Propose(*hotstuff.ProposeMsg)                  {}
+func (c02NullSender) Vote(hotstuff.ID, hotstuff.PartialCert) error { return nil }
+func (c02NullSender) Timeout(hotstuff.TimeoutMsg)                  {}
+func (c02NullSender) Propose(*hotstuff.ProposeMsg)                 {}
 func (s c02NullSender) RequestBlock(_ context.Context, h hotstuff.Hash) (*hotstuff.Block, bool) {
 	b, ok := s.fetchable[h] // blocks that are not stored locally but that a peer serves
 	return b, ok
@@ -77,12 +79,12 @@ type c02Part struct {
 
 // abstract description of a signature object
 type c02Spec struct {
-	typedNil bool     // with absent: BLS only, a nil *BLS12AggregateSignature instead of a nil interface
-	absent  bool      // nil interface
-	other   bool      // object of another scheme's Go type (list schemes only)
-	parts   []c02Part //
-	bits    []uint64  // BLS only: bitfield override (nil = the labels)
-	useBits bool
+	typedNil bool      // with absent: BLS only, a nil *BLS12AggregateSignature instead of a nil interface
+	absent   bool      // nil interface
+	other    bool      // object of another scheme's Go type (list schemes only)
+	parts    []c02Part //
+	bits     []uint64  // BLS only: bitfield override (nil = the labels)
+	useBits  bool
 }
 
 // rendered signature object with its ground truth
@@ -124,12 +126,12 @@ type c02World struct {
 	rogueX   *big.Int
 	warm     *Authority // warm-cache mode: long-lived cache-ON Authority of verifier 0 whose cache holds single signatures
 	warmDesc string
-	offSeen  string     // verdict of the cache-less Authority on the current case (compared with the warm one)
-	selfVi   int // verifier whose Authority was handed out last
+	offSeen  string            // verdict of the cache-less Authority on the current case (compared with the warm one)
+	selfVi   int               // verifier whose Authority was handed out last
 	sigds    map[string]uint64 // signature bytes -> name (QuorumCert.Equals granularity)
-	ids      []uint64 // actual replica id of logical replica k = ids[k-1]; ids[n] is the outsider
-	grow     *c02Grow // membership-growth mode: one long-lived Authority per cache setting
-	long     []*Authority // long-lived cache-less Authority per verifier (must behave statelessly)
+	ids      []uint64          // actual replica id of logical replica k = ids[k-1]; ids[n] is the outsider
+	grow     *c02Grow          // membership-growth mode: one long-lived Authority per cache setting
+	long     []*Authority      // long-lived cache-less Authority per verifier (must behave statelessly)
 	cacheCap uint
 	sparse   bool // non-contiguous / large ids: no exhaustive enumeration, fewer random cases
 	repeat   bool // repetitions of one aggregate: first verifier only, no sub-streams
@@ -309,7 +311,9 @@ func (w *c02World) forge(m c02Msg) c02Sig {
 
 type c02Grow struct{ auths map[bool]*Authority }
 
-func c02NewWorld(v *verifOut, scheme string, n int) *c02World { return c02NewWorldIDs(v, scheme, n, nil) }
+func c02NewWorld(v *verifOut, scheme string, n int) *c02World {
+	return c02NewWorldIDs(v, scheme, n, nil)
+}
 
 func c02NewWorldIDs(v *verifOut, scheme string, n int, ids []uint64) *c02World {
 	w := &c02World{v: v, scheme: scheme, sch: c02SchemeTerm(scheme), n: n, q: hotstuff.QuorumSize(n),
@@ -399,10 +403,10 @@ func c02NewWorldIDs(v *verifOut, scheme string, n int, ids []uint64) *c02World {
 	add("B1", 1, true)
 	add("B2", 2, true)
 	add("B5", 5, true)
-	add("BM", 3, false)              // never stored: "block not found"
-	add("BH", (1<<63)+5, true)       // extreme view label
-	add("B2b", 2, true)              // a second block of view 2
-	add("BF", 7, false)              // not stored locally; blockchain.Get fetches it from a peer
+	add("BM", 3, false)        // never stored: "block not found"
+	add("BH", (1<<63)+5, true) // extreme view label
+	add("B2b", 2, true)        // a second block of view 2
+	add("BF", 7, false)        // not stored locally; blockchain.Get fetches it from a peer
 	fetchable[w.blocks["BF"].Hash()] = w.blocks["BF"]
 	w.stored[w.hashIdx[w.blocks["BF"].Hash()]] = 7
 	var st []string
